@@ -270,4 +270,398 @@ theorem groupsOf_ok (ns : List String) (dd : String) (vars : List Var) :
   have := groupFold_ok ns dd vars [] [] (by intro g hg; simp at hg) (by simp)
   simpa [groupsOf_eq] using this
 
+/-! ### one depth dimension -/
+
+theorem sz_of_sizes (A B : Dataset) (h : A.sizes = B.sizes) : A.sz = B.sz := by
+  funext d; simp [Dataset.sz, h]
+
+theorem qual_not_coord {ns : List String} {dd : String} {v : Var} (h : qual ns dd v = true) : v.isCoord = false := by
+  simp only [qual, Bool.and_eq_true, Bool.not_eq_true', decide_eq_true_eq] at h
+  exact h.1.1
+
+theorem qual_mem {ns : List String} {dd : String} {v : Var} (h : qual ns dd v = true) : dd ∈ v.dims := by
+  simp only [qual, Bool.and_eq_true, Bool.not_eq_true', decide_eq_true_eq] at h
+  exact h.1.2
+
+theorem not_mem_spatialOf (ns : List String) (dd : String) (v : Var) : dd ∉ spatialOf ns dd v := by
+  simp [spatialOf]
+
+theorem floorVar_no_dim (sz : String → Nat) (ns : List String) (dd : String) (ex v : Var) (h : dd ∈ v.dims) :
+    dd ∉ (floorVar sz ns dd ex v).dims := by
+  simp only [floorVar, h, if_true, iselVar]
+  rw [mem_iselDims]
+  rintro (⟨_, h2⟩ | ⟨_, h2⟩)
+  · exact h2 rfl
+  · exact not_mem_spatialOf ns dd ex h2
+
+/-- what must hold of the dataset when dimension `d` is processed: unique names, xarray
+coordinates that have `d` are one-dimensional, and (for the code as written, `kb`) no data
+variable that has `d` is named by a `bounds` attribute -/
+structure DimReady (kb : Bool) (d : String) (S : Dataset) : Prop where
+  nodup : NamesNodup S
+  coords1d : ∀ v ∈ S.vars, v.isCoord = true → d ∈ v.dims → v.dims = [d]
+  noBounds : kb = true → ∀ v ∈ S.vars, ∀ w ∈ S.vars, w.bounds = some v.name → v.isCoord = false → d ∉ v.dims
+
+/-- every variable of `Si` is a variable of `S`, unchanged or floored along `d` -/
+def Linked (ns : List String) (d : String) (S Si : Dataset) : Prop :=
+  ∀ w' ∈ Si.vars, ∃ w ∈ S.vars, w' = w ∨
+    (qual ns d w = true ∧ ∃ e ∈ S.vars, qual ns d e = true ∧ w' = floorVar S.sz ns d e w)
+
+theorem Linked.attrs {ns : List String} {d : String} {S Si : Dataset} (h : Linked ns d S Si) :
+    ∀ w' ∈ Si.vars, ∃ w ∈ S.vars, w'.name = w.name ∧ w'.bounds = w.bounds ∧ w'.isCoord = w.isCoord
+      ∧ (d ∈ w'.dims → w' = w) := by
+  intro w' hw'
+  obtain ⟨w, hw, h1 | ⟨hq, e, _, _, h2⟩⟩ := h w' hw'
+  · exact ⟨w, hw, by rw [h1], by rw [h1], by rw [h1], fun _ => h1⟩
+  · refine ⟨w, hw, by rw [h2, floorVar_name], by rw [h2, floorVar_bounds], by rw [h2, floorVar_isCoord], ?_⟩
+    intro hd
+    rw [h2] at hd
+    exact absurd hd (floorVar_no_dim _ _ _ _ _ (qual_mem hq))
+
+/-- a variable outside the group that still has `d` is not in the group's subset -/
+theorem not_inSubset (kb : Bool) (ns : List String) (d : String) (S Si : Dataset) (names : List String)
+    (hS : DimReady kb d S) (hl : Linked ns d S Si) (w : Var) (hw : w ∈ S.vars) (hd : d ∈ w.dims)
+    (hname : w.name ∉ names) : inSubset kb d names Si.vars w = false := by
+  unfold inSubset
+  by_cases hc : w.isCoord = true
+  · simp [hc, hS.coords1d w hw hc hd]
+  · have hc' : w.isCoord = false := by simpa using hc
+    simp only [hc', Bool.false_eq_true, if_false, Bool.or_eq_false_iff]
+    refine ⟨by simpa using hname, ?_⟩
+    cases hkb : kb with
+    | false => rfl
+    | true =>
+      simp only [Bool.true_and, List.any_eq_false, Bool.and_eq_true, not_and]
+      intro w2' hw2' _ hb
+      obtain ⟨w2, hw2, _, hb2, _, _⟩ := hl.attrs w2' hw2'
+      have hbb : w2.bounds = some w.name := by rw [← hb2]; simpa using hb
+      exact hS.noBounds hkb w hw w2 hw2 hbb hc' hd
+
+theorem floorGroups_spec (kb : Bool) (ns : List String) (d : String) (S : Dataset) (hS : DimReady kb d S) :
+    ∀ (gs : List (List String × List String)) (Si : Dataset),
+      GroupsOK ns d S.vars gs → (gs.flatMap (·.2)).Nodup → Si.sizes = S.sizes → NamesNodup Si →
+      Linked ns d S Si → (∀ g ∈ gs, ∀ m ∈ g.2, Si.find m = S.find m) →
+      ∃ S', floorGroups kb ns d Si gs = some S' ∧ S'.sizes = S.sizes ∧ NamesNodup S' ∧ Linked ns d S S'
+        ∧ (∀ g ∈ gs, ∀ m ∈ g.2, ∃ e v, e ∈ S.vars ∧ qual ns d e = true ∧ g.1 = spatialOf ns d e
+              ∧ S.find m = some v ∧ S'.find m = some (floorVar S.sz ns d e v))
+        ∧ (∀ m, m ∉ gs.flatMap (·.2) → S'.find m = Si.find m)
+  | [], Si, _, _, hsz, hnd, hl, _ => ⟨Si, rfl, hsz, hnd, hl, by intro g hg; simp at hg, fun _ _ => rfl⟩
+  | g :: gs, Si, hok, hflat, hsz, hnd, hl, hU => by
+    obtain ⟨⟨n0, rest, v0, hg2, hv0, hv0n, hv0q, hg1⟩, hmem⟩ := hok g (by simp)
+    have hszf : Si.sz = S.sz := sz_of_sizes _ _ hsz
+    -- the example variable is the untouched head of the group
+    have hfind0 : Si.find n0 = some v0 := by
+      rw [hU g (by simp) n0 (by simp [hg2]), ← hv0n]
+      exact find_of_mem S hS.nodup v0 hv0
+    obtain ⟨S1, hstep, hsz1, hnd1, hfind1, hvars1⟩ :=
+      floorGroup_spec kb ns d Si n0 rest v0 hnd hfind0 (qual_mem hv0q)
+    -- members of the group are floored
+    have hA : ∀ m ∈ g.2, ∃ v, v ∈ S.vars ∧ qual ns d v = true ∧ S.find m = some v
+        ∧ S1.find m = some (floorVar S.sz ns d v0 v) := by
+      intro m hm
+      obtain ⟨v, hv, hvn, hvq, _⟩ := hmem m hm
+      have hSf : S.find m = some v := by rw [← hvn]; exact find_of_mem S hS.nodup v hv
+      refine ⟨v, hv, hvq, hSf, ?_⟩
+      rw [hfind1 m, hU g (by simp) m hm, hSf, Option.map_some, hszf]
+      have hin : inSubset kb d (n0 :: rest) Si.vars v = true := by
+        unfold inSubset
+        rw [qual_not_coord hvq]
+        have : (n0 :: rest).contains v.name = true := by
+          rw [hvn, ← hg2]; simpa using hm
+        simp only [Bool.false_eq_true, if_false, this, Bool.true_or]
+      simp [hin]
+    -- everything else is left alone
+    have hB : ∀ m, m ∉ g.2 → S1.find m = Si.find m := by
+      intro m hm
+      rw [hfind1 m]
+      cases hf : Si.find m with
+      | none => rfl
+      | some v' =>
+        simp only [Option.map_some, Option.some.injEq]
+        by_cases hd : d ∈ v'.dims
+        · obtain ⟨w, hw, _, _, _, hsame⟩ := hl.attrs v' (find_mem _ _ _ hf)
+          have hvw : v' = w := hsame hd
+          have hname : v'.name = m := find_name _ _ _ hf
+          have : inSubset kb d (n0 :: rest) Si.vars v' = false := by
+            rw [hvw]
+            apply not_inSubset kb ns d S Si (n0 :: rest) hS hl w hw (hvw ▸ hd)
+            rw [← hvw, hname, ← hg2]; exact hm
+          simp [this]
+        · rw [floorVar_of_not_mem _ _ _ _ _ hd]; simp
+    -- the link is kept
+    have hl1 : Linked ns d S S1 := by
+      intro w' hw'
+      obtain ⟨w, hw, h1 | ⟨hin, h2⟩⟩ := hvars1 w' hw'
+      · exact h1 ▸ hl w hw
+      · by_cases hd : d ∈ w.dims
+        · obtain ⟨w0, hw0, _, _, _, hsame⟩ := hl.attrs w hw
+          have hww : w = w0 := hsame hd
+          have hname : w0.name ∈ n0 :: rest := by
+            apply Classical.byContradiction
+            intro hno
+            have := not_inSubset kb ns d S Si (n0 :: rest) hS hl w0 hw0 (hww ▸ hd) hno
+            rw [← hww, hin] at this
+            exact Bool.noConfusion this
+          obtain ⟨v, hv, hvn, hvq, _⟩ := hmem w0.name (hg2 ▸ hname)
+          have hvw0 : v = w0 := by
+            have a := find_of_mem S hS.nodup v hv
+            have b := find_of_mem S hS.nodup w0 hw0
+            rw [hvn] at a
+            exact Option.some.inj (a.symm.trans b)
+          refine ⟨w0, hw0, Or.inr ⟨hvw0 ▸ hvq, v0, hv0, hv0q, ?_⟩⟩
+          rw [h2, hww, hszf]
+        · rw [floorVar_of_not_mem _ _ _ _ _ hd] at h2
+          exact h2 ▸ hl w hw
+    -- the rest of the groups
+    have hflat' : (gs.flatMap (·.2)).Nodup ∧ ∀ m ∈ g.2, m ∉ gs.flatMap (·.2) := by
+      rw [List.flatMap_cons, List.nodup_append] at hflat
+      exact ⟨hflat.2.1, fun m hm hm2 => hflat.2.2 m hm m hm2 rfl⟩
+    have hU1 : ∀ g' ∈ gs, ∀ m ∈ g'.2, S1.find m = S.find m := by
+      intro g' hg' m hm
+      have hnot : m ∉ g.2 := fun hmg =>
+        hflat'.2 m hmg (List.mem_flatMap.mpr ⟨g', hg', hm⟩)
+      rw [hB m hnot]
+      exact hU g' (by simp [hg']) m hm
+    obtain ⟨S', hrun, hsz', hnd', hl', hmem', hrest'⟩ :=
+      floorGroups_spec kb ns d S hS gs S1 (fun g' hg' => hok g' (by simp [hg'])) hflat'.1
+        (hsz1.trans hsz) hnd1 hl1 hU1
+    refine ⟨S', ?_, hsz', hnd', hl', ?_, ?_⟩
+    · obtain ⟨k, names⟩ := g
+      simp only at hg2
+      subst hg2
+      simp only [floorGroups, hstep, hrun]
+    · intro g' hg' m hm
+      rcases List.mem_cons.mp hg' with rfl | hg''
+      · obtain ⟨v, hv, _, hSf, hS1⟩ := hA m hm
+        exact ⟨v0, v, hv0, hv0q, hg1, hSf, by rw [hrest' m (hflat'.2 m hm)]; exact hS1⟩
+      · exact hmem' g' hg'' m hm
+    · intro m hm
+      simp only [List.flatMap_cons, List.mem_append, not_or] at hm
+      rw [hrest' m hm.2, hB m hm.1]
+
+theorem linked_refl (ns : List String) (d : String) (S : Dataset) : Linked ns d S S :=
+  fun w hw => ⟨w, hw, Or.inl rfl⟩
+
+theorem eq_of_name_eq (S : Dataset) (hn : NamesNodup S) (v w : Var) (hv : v ∈ S.vars) (hw : w ∈ S.vars)
+    (h : v.name = w.name) : v = w := by
+  have a := find_of_mem S hn v hv
+  have b := find_of_mem S hn w hw
+  rw [h] at a
+  exact Option.some.inj (a.symm.trans b)
+
+/-- the effect of one depth dimension: every qualifying variable is indexed with the floor
+of (some member of) its group, nothing else changes -/
+theorem floorDim_spec (kb : Bool) (ns : List String) (d : String) (S : Dataset) (hS : DimReady kb d S) :
+    ∃ S', floorDim kb ns S d = some S' ∧ S'.sizes = S.sizes ∧ NamesNodup S' ∧ Linked ns d S S'
+      ∧ (∀ v ∈ S.vars, qual ns d v = true → ∃ e ∈ S.vars, qual ns d e = true
+            ∧ sameSet (spatialOf ns d e) (spatialOf ns d v) = true
+            ∧ S'.find v.name = some (floorVar S.sz ns d e v))
+      ∧ (∀ m v, S.find m = some v → qual ns d v = false → S'.find m = some v) := by
+  obtain ⟨hok, hperm⟩ := groupsOf_ok ns d S.vars
+  have hflat : ((groupsOf ns d S.vars).flatMap (·.2)).Nodup := by
+    rw [hperm.nodup_iff]
+    exact List.Nodup.sublist ((List.filter_sublist).map _) hS.nodup
+  obtain ⟨S', hrun, hsz, hnd, hl, hmem, hrest⟩ :=
+    floorGroups_spec kb ns d S hS _ S hok hflat rfl hS.nodup (linked_refl ns d S) (fun _ _ _ _ => rfl)
+  refine ⟨S', hrun, hsz, hnd, hl, ?_, ?_⟩
+  · intro v hv hq
+    have hin : v.name ∈ (groupsOf ns d S.vars).flatMap (·.2) := by
+      rw [hperm.mem_iff]
+      exact List.mem_map_of_mem (f := (·.name)) (List.mem_filter.mpr ⟨hv, hq⟩)
+    obtain ⟨g, hg, hm⟩ := List.mem_flatMap.mp hin
+    obtain ⟨e, v', he, heq, hg1, hSf, hS'⟩ := hmem g hg v.name hm
+    have hv' : v' = v := by
+      rw [find_of_mem S hS.nodup v hv] at hSf
+      exact (Option.some.inj hSf).symm
+    obtain ⟨v'', hv'', hn'', _, hss⟩ := (hok g hg).2 v.name hm
+    have : v'' = v := eq_of_name_eq S hS.nodup v'' v hv'' hv hn''
+    refine ⟨e, he, heq, ?_, by rw [hS', hv']⟩
+    rw [← hg1, ← this]; exact hss
+  · intro m v hf hq
+    have hname : v.name = m := find_name _ _ _ hf
+    have hnot : m ∉ (groupsOf ns d S.vars).flatMap (·.2) := by
+      rw [hperm.mem_iff]
+      intro hmem'
+      obtain ⟨q, hq', hqn⟩ := List.mem_map.mp hmem'
+      obtain ⟨hq1, hq2⟩ := List.mem_filter.mp hq'
+      have : q = v := eq_of_name_eq S hS.nodup q v hq1 (find_mem _ _ _ hf) (by rw [hqn, hname])
+      rw [this, hq] at hq2
+      exact Bool.noConfusion hq2
+    rw [hrest m hnot, hf]
+
+/-! ### all depth dimensions -/
+
+/-- what `ocean_floor` assumes of the (normalised) dataset `N` with depth dimensions `ddims`:
+unique names, at most one depth dimension per variable, xarray coordinates that have a depth
+dimension are one-dimensional, and — for the code as written (`kb`) — no data variable that
+has a depth dimension is named by a `bounds` attribute -/
+structure FloorReady (kb : Bool) (ddims : List String) (N : Dataset) : Prop where
+  nodup : NamesNodup N
+  oneDepth : ∀ v ∈ N.vars, ∀ a ∈ ddims, ∀ b ∈ ddims, a ∈ v.dims → b ∈ v.dims → a = b
+  coords1d : ∀ v ∈ N.vars, v.isCoord = true → ∀ d ∈ ddims, d ∈ v.dims → v.dims = [d]
+  noBounds : kb = true → ∀ v ∈ N.vars, ∀ w ∈ N.vars, w.bounds = some v.name → v.isCoord = false →
+    ∀ d ∈ ddims, d ∉ v.dims
+
+/-- the state between two depth dimensions: same sizes and names; a variable that still has
+a depth dimension is an untouched variable of `N` -/
+structure OInv (ddims : List String) (N S : Dataset) : Prop where
+  sizes : S.sizes = N.sizes
+  nodup : NamesNodup S
+  link : ∀ w' ∈ S.vars, ∃ w ∈ N.vars, w'.name = w.name ∧ w'.bounds = w.bounds ∧ w'.isCoord = w.isCoord
+    ∧ ((∃ d ∈ ddims, d ∈ w'.dims) → w' = w)
+
+theorem oinv_refl (ddims : List String) (N : Dataset) (h : NamesNodup N) : OInv ddims N N :=
+  ⟨rfl, h, fun w hw => ⟨w, hw, rfl, rfl, rfl, fun _ => rfl⟩⟩
+
+theorem dimReady_of_oinv (kb : Bool) (ddims : List String) (N S : Dataset) (hN : FloorReady kb ddims N)
+    (hS : OInv ddims N S) (d : String) (hd : d ∈ ddims) : DimReady kb d S := by
+  refine ⟨hS.nodup, ?_, ?_⟩
+  · intro v hv hc hdv
+    obtain ⟨w, hw, _, _, hcw, hsame⟩ := hS.link v hv
+    have : v = w := hsame ⟨d, hd, hdv⟩
+    subst this
+    exact hN.coords1d v hw hc d hd hdv
+  · intro hkb v hv w hw hb hc hdv
+    obtain ⟨v0, hv0, _, _, _, hsame⟩ := hS.link v hv
+    have : v = v0 := hsame ⟨d, hd, hdv⟩
+    subst this
+    obtain ⟨w0, hw0, _, hbw, _, _⟩ := hS.link w hw
+    exact hN.noBounds hkb v hv0 w0 hw0 (by rw [← hbw]; exact hb) hc d hd hdv
+
+theorem mem_spatialOf {ns : List String} {dd : String} {v : Var} {x : String} :
+    x ∈ spatialOf ns dd v ↔ x ∈ v.dims ∧ x ≠ dd ∧ x ∉ ns := by
+  simp [spatialOf]
+
+/-- a floored variable has no depth dimension left -/
+theorem floorVar_no_depth (kb : Bool) (ddims ns : List String) (N : Dataset) (hN : FloorReady kb ddims N)
+    (d : String) (hd : d ∈ ddims) (e w : Var) (he : e ∈ N.vars) (hw : w ∈ N.vars)
+    (hed : d ∈ e.dims) (hwd : d ∈ w.dims) (sz : String → Nat) :
+    ∀ x ∈ ddims, x ∉ (floorVar sz ns d e w).dims := by
+  intro x hx hmem
+  simp only [floorVar, hwd, if_true, iselVar] at hmem
+  rw [mem_iselDims] at hmem
+  rcases hmem with ⟨h1, h2⟩ | ⟨_, h2⟩
+  · exact h2 (hN.oneDepth w hw x hx d hd h1 hwd)
+  · obtain ⟨h3, h4, _⟩ := mem_spatialOf.mp h2
+    exact h4 (hN.oneDepth e he x hx d hd h3 hed)
+
+theorem oinv_step (kb : Bool) (ddims ns : List String) (N S S' : Dataset) (hN : FloorReady kb ddims N)
+    (hS : OInv ddims N S) (d : String) (hd : d ∈ ddims)
+    (hsz : S'.sizes = S.sizes) (hnd : NamesNodup S') (hl : Linked ns d S S') : OInv ddims N S' := by
+  refine ⟨hsz.trans hS.sizes, hnd, ?_⟩
+  intro w' hw'
+  obtain ⟨w, hw, h1 | ⟨hq, e, he, heq, h2⟩⟩ := hl w' hw'
+  · exact h1 ▸ hS.link w hw
+  · obtain ⟨w0, hw0, a1, a2, a3, hsame⟩ := hS.link w hw
+    have hww : w = w0 := hsame ⟨d, hd, qual_mem hq⟩
+    obtain ⟨e0, he0, _, _, _, hsame'⟩ := hS.link e he
+    have hee : e = e0 := hsame' ⟨d, hd, qual_mem heq⟩
+    refine ⟨w0, hw0, by rw [h2, floorVar_name, a1], by rw [h2, floorVar_bounds, a2],
+      by rw [h2, floorVar_isCoord, a3], ?_⟩
+    rintro ⟨x, hx, hxm⟩
+    rw [h2] at hxm
+    exact absurd hxm (floorVar_no_depth kb ddims ns N hN d hd e w (hee ▸ he0) (hww ▸ hw0)
+      (qual_mem heq) (qual_mem hq) S.sz x hx)
+
+/-- the loop over the depth dimensions never fails and keeps the invariant -/
+theorem floorDims_ok (kb : Bool) (ddims ns : List String) (N : Dataset) (hN : FloorReady kb ddims N) :
+    ∀ (order : List String) (S : Dataset), (∀ d ∈ order, d ∈ ddims) → OInv ddims N S →
+      ∃ S', floorDims kb ns S order = some S' ∧ OInv ddims N S'
+  | [], S, _, hS => ⟨S, rfl, hS⟩
+  | d :: rest, S, hord, hS => by
+    have hd : d ∈ ddims := hord d (by simp)
+    obtain ⟨S1, hrun, hsz, hnd, hl, _, _⟩ :=
+      floorDim_spec kb ns d S (dimReady_of_oinv kb ddims N S hN hS d hd)
+    obtain ⟨S', hrun', hS'⟩ := floorDims_ok kb ddims ns N hN rest S1 (fun x hx => hord x (by simp [hx]))
+      (oinv_step kb ddims ns N S S1 hN hS d hd hsz hnd hl)
+    exact ⟨S', by simp [floorDims, hrun, hrun'], hS'⟩
+
+/-- a variable that does not qualify for any of the dimensions is never touched -/
+theorem floorDims_frame (kb : Bool) (ddims ns : List String) (N : Dataset) (hN : FloorReady kb ddims N) :
+    ∀ (order : List String) (S S' : Dataset), (∀ d ∈ order, d ∈ ddims) → OInv ddims N S →
+      floorDims kb ns S order = some S' →
+      ∀ m v, S.find m = some v → (∀ d ∈ order, qual ns d v = false) → S'.find m = some v
+  | [], S, S', _, _, hrun, m, v, hf, _ => by
+    simp only [floorDims, Option.some.injEq] at hrun
+    rw [← hrun]; exact hf
+  | d :: rest, S, S', hord, hS, hrun, m, v, hf, hq => by
+    have hd : d ∈ ddims := hord d (by simp)
+    obtain ⟨S1, hrun1, hsz, hnd, hl, _, hframe⟩ :=
+      floorDim_spec kb ns d S (dimReady_of_oinv kb ddims N S hN hS d hd)
+    simp only [floorDims, hrun1] at hrun
+    exact floorDims_frame kb ddims ns N hN rest S1 S' (fun x hx => hord x (by simp [hx]))
+      (oinv_step kb ddims ns N S S1 hN hS d hd hsz hnd hl) hrun m v
+      (hframe m v hf (hq d (by simp))) (fun x hx => hq x (by simp [hx]))
+
+theorem qual_false_of_not_mem (ns : List String) (d : String) (v : Var) (h : d ∉ v.dims) : qual ns d v = false := by
+  simp [qual, h]
+
+/-- a qualifying variable of `N` with depth dimension `d` ends up indexed with the floor of
+a member of its group -/
+theorem floorDims_target (kb : Bool) (ddims ns : List String) (N : Dataset) (hN : FloorReady kb ddims N)
+    (n : String) (u1 : Var) (d : String) (hd : d ∈ ddims) (hu : N.find n = some u1)
+    (hq : qual ns d u1 = true) :
+    ∀ (order : List String) (S S' : Dataset), (∀ x ∈ order, x ∈ ddims) → d ∈ order → OInv ddims N S →
+      S.find n = some u1 → floorDims kb ns S order = some S' →
+      ∃ e ∈ N.vars, qual ns d e = true ∧ sameSet (spatialOf ns d e) (spatialOf ns d u1) = true
+        ∧ S'.find n = some (floorVar N.sz ns d e u1)
+  | [], _, _, _, hmem, _, _, _ => by simp at hmem
+  | x :: rest, S, S', hord, hmem, hS, hf, hrun => by
+    have hx : x ∈ ddims := hord x (by simp)
+    have hun : u1.name = n := find_name _ _ _ hu
+    have hu1N : u1 ∈ N.vars := find_mem _ _ _ hu
+    obtain ⟨S1, hrun1, hsz, hnd, hl, htarget, hframe⟩ :=
+      floorDim_spec kb ns x S (dimReady_of_oinv kb ddims N S hN hS x hx)
+    have hS1 := oinv_step kb ddims ns N S S1 hN hS x hx hsz hnd hl
+    simp only [floorDims, hrun1] at hrun
+    by_cases hxd : x = d
+    · subst hxd
+      obtain ⟨e, he, heq, hss, hfind⟩ := htarget u1 (find_mem _ _ _ hf) hq
+      obtain ⟨e0, he0, _, _, _, hsame⟩ := hS.link e he
+      have hee : e = e0 := hsame ⟨x, hx, qual_mem heq⟩
+      rw [hun, sz_of_sizes S N hS.sizes] at hfind
+      refine ⟨e, hee ▸ he0, heq, hss, ?_⟩
+      -- the floored variable has no depth dimension, so the rest of the loop leaves it alone
+      apply floorDims_frame kb ddims ns N hN rest S1 S' (fun y hy => hord y (by simp [hy])) hS1 hrun n _ hfind
+      intro y hy
+      apply qual_false_of_not_mem
+      exact floorVar_no_depth kb ddims ns N hN x hx e u1 (hee ▸ he0) hu1N (qual_mem heq) (qual_mem hq) N.sz y
+        (hord y (by simp [hy]))
+    · have hxnot : x ∉ u1.dims := fun hxm => hxd (hN.oneDepth u1 hu1N x hx d hd hxm (qual_mem hq))
+      have hf1 : S1.find n = some u1 := hframe n u1 hf (qual_false_of_not_mem ns x u1 hxnot)
+      have hmem' : d ∈ rest := by
+        rcases List.mem_cons.mp hmem with h | h
+        · exact absurd h.symm hxd
+        · exact h
+      exact floorDims_target kb ddims ns N hN n u1 d hd hu hq rest S1 S' (fun y hy => hord y (by simp [hy]))
+        hmem' hS1 hf1 hrun
+
+/-! ### dropping the depth dimensions -/
+
+theorem find?_filter_of_pos (p q : Var → Bool) : ∀ (l : List Var) (v : Var),
+    l.find? q = some v → p v = true → (l.filter p).find? q = some v
+  | [], _, h, _ => by simp at h
+  | x :: xs, v, h, hp => by
+    rw [List.find?_cons] at h
+    by_cases hq : q x = true
+    · simp only [hq] at h
+      have : x = v := Option.some.inj h
+      subst this
+      simp [List.filter_cons, hp, hq]
+    · have hq' : q x = false := by simpa using hq
+      simp only [hq'] at h
+      by_cases hpx : p x = true
+      · simp only [List.filter_cons, hpx, if_true, List.find?_cons, hq']
+        exact find?_filter_of_pos p q xs v h hp
+      · simp only [List.filter_cons, hpx, Bool.false_eq_true, if_false]
+        exact find?_filter_of_pos p q xs v h hp
+
+theorem find_dropDims (S : Dataset) (dds : List String) (m : String) (v : Var) (h : S.find m = some v)
+    (hno : ∀ x ∈ dds, x ∉ v.dims) : (S.dropDims dds).find m = some v := by
+  unfold Dataset.find Dataset.dropDims
+  apply find?_filter_of_pos _ _ _ _ h
+  simp only [List.all_eq_true, decide_eq_true_eq]
+  intro x hx hmem
+  exact hno x hmem hx
+
 end Ems.Depth
